@@ -227,3 +227,63 @@ proof!(c02_descendant_tree_b, 8, {
     forget(sb);
     forget(so);
 });
+
+// [*, j] on one node: every element, then element j again (duplicate kept, selector order)
+proof!(c02_selectors_wild_idx, 6, {
+    let mut sc = Scratch::new();
+    sc.elems[0] = Mini::Int(0);
+    sc.elems[1] = Mini::Int(1);
+    let doc = sc.arr(2);
+    let j: i64 = kani::any();
+    kani::assume(j >= -3 && j <= 3);
+    let mut sels = Pair { a: ms_wild(), b: ms_index(j) };
+    let v = sel_vec(&mut sels, 2);
+    let st = process_selectors(State::root(&doc), &v);
+    let mut got = [core::ptr::null::<Mini>(); 8];
+    let n = nodes_of(&st.data, &mut got);
+    let ej = rfc_index(j, 2);
+    assert!(n == 2 + if ej.is_some() { 1 } else { 0 }, "[*, j] must return every element plus element j again");
+    assert!(core::ptr::eq(got[0], &sc.elems[0]) && core::ptr::eq(got[1], &sc.elems[1]), "[*, j]: the wildcard's nodes come first, in index order");
+    if let Some(y) = ej {
+        assert!(core::ptr::eq(got[2], &sc.elems[y]), "[*, j]: then element j (a duplicate of an earlier node)");
+    }
+    kani::cover!(ej.is_some(), "index in range");
+    kani::cover!(ej.is_none(), "index out of range");
+    forget(st);
+    forget(v);
+    forget(sc);
+});
+
+// three selectors [i, j, k] on one node
+proof!(c02_selectors_three, 6, {
+    let mut sc = Scratch::new();
+    sc.elems[0] = Mini::Int(0);
+    sc.elems[1] = Mini::Int(1);
+    let doc = sc.arr(2);
+    let (i, j, k): (i64, i64, i64) = (kani::any(), kani::any(), kani::any());
+    kani::assume(i >= -3 && i <= 2 && j >= -3 && j <= 2 && k >= -3 && k <= 2);
+    let mut sels = Triple { a: ms_index(i), b: ms_index(j), c: ms_index(k) };
+    let v = sel_vec(&mut sels, 3);
+    let st = process_selectors(State::root(&doc), &v);
+    let mut got = [core::ptr::null::<Mini>(); 8];
+    let n = nodes_of(&st.data, &mut got);
+    let mut m = 0;
+    if let Some(x) = rfc_index(i, 2) {
+        assert!(m < n && core::ptr::eq(got[m], &sc.elems[x]), "[i,j,k]: first selector's node first");
+        m += 1;
+    }
+    if let Some(x) = rfc_index(j, 2) {
+        assert!(m < n && core::ptr::eq(got[m], &sc.elems[x]), "[i,j,k]: second selector's node second");
+        m += 1;
+    }
+    if let Some(x) = rfc_index(k, 2) {
+        assert!(m < n && core::ptr::eq(got[m], &sc.elems[x]), "[i,j,k]: third selector's node third");
+        m += 1;
+    }
+    assert!(n == m, "[i,j,k] returned extra nodes");
+    kani::cover!(n == 3, "all three select");
+    kani::cover!(n == 1, "only one selects");
+    forget(st);
+    forget(v);
+    forget(sc);
+});
